@@ -57,5 +57,6 @@ Emit == ~done \/ PrintT(<<"CASE", ToJson([tree |-> tree, index |-> TreeIndex(tre
                                  entries |-> SetToSeq({[path |-> p, kind |-> FS[p]] : p \in DOMAIN FS}),
                                  pats |-> SetToSeq({[comps |-> pt.comps, slash |-> pt.slash, abs |-> pt.abs, rep |-> pt.rep, exp |-> SetToSeq(Expected(FS, pt)),
                                                      expstr |-> SetToSeq(ExpectedStrings(FS, pt)),
-                                                     exp2 |-> SetToSeq(Expected(FS, DropBS(pt))), expstr2 |-> SetToSeq(ExpectedStrings(FS, DropBS(pt)))] : pt \in {q \in Pats : Usable(q)}})])>>)
+                                                     exp2 |-> SetToSeq(Expected(FS, DropBS(pt))), expstr2 |-> SetToSeq(ExpectedStrings(FS, DropBS(pt))),
+                                                     expw |-> SetToSeq(ExpectedWord(FS, pt)), expw2 |-> SetToSeq(ExpectedWord(FS, DropBS(pt)))] : pt \in {q \in Pats : Usable(q)}})])>>)
 =============================================================================
